@@ -435,6 +435,8 @@ def run_regressions(mod) -> list:
         vio = []
         try:
             sc.body(ctx, decode(rec["case"]))
+        except __import__("hypothesis").errors.UnsatisfiedAssumption:
+            pass
         except Violation as v:
             vio.append({"bucket": v.bucket, "sub": sc.name, "case": encode(v.case), "message": "[regression " + os.path.basename(path) + "] " + v.message})
         except Exception:
@@ -565,8 +567,13 @@ def replay(modname: str, path: str) -> int:
         return 2
     ctx = Ctx(pid, sc.name, "quick", 0)
     ctx.known = {}  # a replay evaluates the case itself, listed or not
+    import hypothesis.errors
+
     try:
         sc.body(ctx, decode(rec["case"]))
+    except hypothesis.errors.UnsatisfiedAssumption:
+        print(f"[{pid}] replay {path}: case is rejected by a precondition of the check on this tree (not evaluated)")
+        return 0
     except Violation as v:
         print(f"   replayed violation bucket={v.bucket}: {v.message[:600]}")
         print(f"VIOLATION property={pid} replay={path}")
